@@ -5,6 +5,7 @@ import (
 	"go/ast"
 	"go/token"
 	"go/types"
+	"regexp"
 	"sort"
 	"strings"
 
@@ -181,6 +182,8 @@ func runC12(c *core.Ctx) {
 	c.Rule("R8", "the zone list and the other derived fields the walk reads are replaced unconditionally on a topology change (shared with C13.R8)", 1)
 	c.Rule("R7", "a shard is cached only if the ring's topology did not change since it was computed (shared with C13.R3)", 2)
 	c.Rule("R6", "public wrappers: the walk is skipped only for size ≤ 0; identifier and size passed on unchanged", 2)
+	c.Rule("R9", "the requested size is never an operand of integer +, * or <<: every size up to math.MaxInt is a legal request and must not wrap", 3)
+	c.Rule("R10", "a cached look-back shard is reused only for windows starting at or after the window it was computed for (shared with C13.R6)", 2)
 	c.Rule("R5", "out-of-range partition shard size falls back to the number of all partitions", 1)
 	pkg := c.Prog.Pkg("ring")
 	sp := c.Prog.Pkg("ring/shard")
@@ -295,6 +298,44 @@ func runC12(c *core.Ctx) {
 	}
 	c13Fills(c, pkg, "R7")
 	c13RefreshAll(c, pkg, "R8")
+	c13LowerBound(c, pkg, "R10")
+	// ---- R9: no wrapping arithmetic on the requested size
+	for _, e := range []struct {
+		pkg  *packages.Package
+		name string
+		size string
+	}{{sp, "ShuffleShardExpectedInstancesPerZone", "p0"}, {pkg, "Ring.shuffleShard", "p1"}, {pkg, "PartitionRing.shuffleShard", "p1"}} {
+		fn := an.FindFunc(e.pkg, e.name)
+		if fn == nil {
+			c.Miss("R9", "func="+e.name+":size-arith", "not found")
+			continue
+		}
+		c.Analysed(fn.String())
+		sizeRe := regexp.MustCompile(`\b` + e.size + `\b|ShuffleShardExpectedInstancesPerZone\(`)
+		var bad []string
+		seen := 0
+		fn.InspectDeep(func(n ast.Node) bool {
+			be, ok := n.(*ast.BinaryExpr)
+			if !ok || !(be.Op == token.ADD || be.Op == token.MUL || be.Op == token.SHL) {
+				return true
+			}
+			if t, ok := fn.Info().TypeOf(be).Underlying().(*types.Basic); !ok || t.Info()&types.IsInteger == 0 {
+				return true
+			}
+			seen++
+			in := fn.LitFnAt(be)
+			for _, op := range []ast.Expr{be.X, be.Y} {
+				cn := in.Canon(op)
+				// a quotient or remainder of the size is far from the limit
+				if sizeRe.MatchString(cn) && !strings.Contains(cn, " / ") && !strings.Contains(cn, " % ") {
+					bad = append(bad, fmt.Sprintf("%s at line %d", in.Canon(be), c.Prog.Fset.Position(be.Pos()).Line))
+					break
+				}
+			}
+			return true
+		})
+		c.Check(len(bad) == 0, "R9", "func="+e.name+":size-arith", fn.Pos(), fmt.Sprintf("%d integer +/*/<< expressions, none with the requested size (or the per-zone size derived from it) as an operand: %v", seen, bad), 1)
+	}
 	// ---- R6: the public wrappers skip the sharding walk only for size <= 0 and pass identifier and size on unchanged
 	for _, name := range []string{"Ring.ShuffleShard", "Ring.ShuffleShardWithLookback"} {
 		fn := an.FindFunc(pkg, name)
